@@ -2,29 +2,43 @@
 //!
 //!   bbv check <ID> [--tier quick|thorough]      (VERIF_SEED, VERIF_TIER are honoured)
 //!   bbv replay <file>
+//!   bbv warm                                    (pre-build dependencies of generated crates)
 
 #![allow(dead_code)]
 mod bprops;
+mod c09;
 mod cargo;
 mod common;
 mod corpus;
 mod emit;
+mod eprops;
 mod gen;
+mod replay;
+mod vprops;
 
 use common::*;
 
 fn usage() -> ! {
-    eprintln!("usage: bbv check <C01..C19> [--tier quick|thorough] | bbv replay <file>");
+    eprintln!("usage: bbv check <C01..C19> [--tier quick|thorough] | bbv replay <file> | bbv warm");
     std::process::exit(2);
+}
+
+pub fn dispatch(rc: &RunCtx) -> Outcome {
+    match rc.prop.as_str() {
+        "C01" | "C02" | "C03" | "C04" | "C05" | "C06" | "C08" | "C11" | "C12" | "C13" | "C16" | "C19" => bprops::run(rc),
+        "C07" => eprops::run_c07(rc),
+        "C09" => c09::run(rc),
+        _ => usage(),
+    }
 }
 
 fn main() {
     let args: Vec<String> = std::env::args().collect();
-    if args.len() < 3 {
+    if args.len() < 2 {
         usage();
     }
     match args[1].as_str() {
-        "check" => {
+        "check" if args.len() >= 3 => {
             let prop = args[2].to_uppercase();
             let mut tier = match std::env::var("VERIF_TIER").ok().as_deref() {
                 Some("thorough") => Tier::Thorough,
@@ -39,12 +53,11 @@ fn main() {
                 i += 1;
             }
             let rc = RunCtx::new(&prop, tier, seed_from_env());
-            let out = match prop.as_str() {
-                "C01" | "C02" | "C03" | "C04" | "C05" | "C08" | "C12" => bprops::run(&rc),
-                _ => usage(),
-            };
+            let out = dispatch(&rc);
             finish(&rc, out);
         }
+        "replay" if args.len() >= 3 => replay::replay(&args[2]),
+        "warm" => replay::warm(),
         _ => usage(),
     }
 }
